@@ -205,7 +205,12 @@ def gen_e4():
                      "(defined {})", "defined({})==defined {}"):
             yield form.replace("{}", n), env, "E4"
     for ident in ("UNDEF", "true", "false", "int", "sizeof", "if", "__cplusplus", "x_1", "_", "NOTDEF", "TOUNDEF", "SELF",
-                  "MUT1", "CHAIN", "ZERO", "TWO", "EXPR", "NEG", "PAREN"):
+                  "MUT1", "CHAIN", "ZERO", "TWO", "EXPR", "NEG", "PAREN",
+                  # words that are operators or keywords elsewhere (C++ alternative tokens, <iso646.h> names, keywords)
+                  # but plain identifiers in a C #if
+                  "and", "or", "not", "xor", "compl", "bitand", "bitor", "not_eq", "and_eq", "or_eq", "xor_eq",
+                  "new", "class", "typeof", "elif", "else", "endif", "include", "define", "pragma", "L", "u8", "U",
+                  "definedX", "defined_", "__COUNTER", "NULL", "nullptr"):
         for form in ("{}", "{} == 0", "{} + 1 == 1", "!{}", "{} || 1", "{} && 1", "({})", "-{} == 0", "{} * 2 == 4",
                      "{} * 3 == 3", "2 * {} == 3", "2 * {} == 4"):
             yield form.replace("{}", ident), env, "E4"
@@ -240,7 +245,8 @@ def rand_tree(rng, depth, leaves):
 
 RLEAVES = ["0", "1", "2", "3", "5", "7", "8", "63", "64", "100", "1u", "0u", "2u", "7u", "18446744073709551615u", "010", "017",
            "0x10", "0xff", "0b101", "'a'", "'0'", "'\\n'", "9223372036854775807", "0x7fffffffffffffff", "1L", "2UL", "3ll",
-           "4LLU", "5lu", "X", "Y", "Z", "U1", "defined X", "defined(Y)", "defined ( U1 )", "UNKNOWN", "true"]
+           "4LLU", "5lu", "X", "Y", "Z", "U1", "defined X", "defined(Y)", "defined ( U1 )", "UNKNOWN", "true",
+           "and", "or", "not", "xor", "compl", "bitand", "bitor", "not_eq", "false"]
 
 
 def gen_random(rng, n):
